@@ -15,7 +15,10 @@ RULE = ("maps are built through the public API by harness/c06_gen.py (entities w
         "Strata viewports/point data, repeated and hash-colliding ids; BOUNDARY SHAPES: every per-vertex array and allowed_verts also all-zero / "
         "all-default / all-equal / single non-zero element first-last-middle, powers at both ends, scalars equal to the reader's defaults), plus every .vmf under /repo/tests; each map is "
         "checked under options (minimal, disp_multiblend) x preserve_ids; the parser is additionally fed key-dropped variants of exported trees "
-        "(one node of a uniformly chosen kind removed, or every node removed with probability 3-30%). HISTORIES (harness/c06_hist.py): one live map is "
+        "(one node of a uniformly chosen kind removed, or every node removed with probability 3-30%). ARGUMENTS ARE VALUES: the Keyvalues tree is dumped before and after every VMF.parse, one tree object is parsed three times "
+        "(preserve_ids T,F,T / F,T,F) and compared with parses of fresh trees, of a str path and of a pathlib.Path; the live map is dumped after every export and "
+        "compared with afterExport; export to a str and into a file object (dest_file / positional), inc_version both ways, must agree. "
+        "HISTORIES (harness/c06_hist.py): one live map is "
         "exported again and again with in-place edits through the public API in between (Solid/Side.translate, localise, Side.scale/offset setters, "
         "side.uaxis.<attr> = ..., plane/camera/cordon/displacement Vec +=, key/fixup/output edits, vertex edits, visgroup and hidden toggles, map settings, str()); "
         "after EVERY export the oracle compares the re-parsed text with a fresh dump of the live object, and the correspondence compares the text/tree with "
@@ -166,7 +169,98 @@ def _ids_unique(d):
 _IDX = re.compile(r'\[\d+\]')
 
 
-def check_map(ctx, vmf, minimal, multiblend, inc_version, case, report=True):
+def after_export(d, minimal, inc_version):
+    """What `export` is allowed to change on the live object (= the model's `afterExport`): the version
+    counter, worldspawn's classname / mapversion keys, active_cam without cameras. Everything else stays."""
+    d = copy.deepcopy(d)
+    if inc_version:
+        d['map_ver'] += 1
+    if not minimal and not d['cams']:
+        d['active_cam'] = -1
+    keys = d['spawn']['keys']
+    _set_key(keys, G.codes('mapversion'), G.codes('0'))
+    _set_key(keys, G.codes('classname'), G.codes('worldspawn'))
+    d['spawn']['keys'] = [kv for kv in keys if ''.join(map(chr, kv[0])).casefold() != 'mapversion']
+    return d
+
+
+def _nomv(d):
+    """without worldspawn's `mapversion` key (export removes it from the object; the references were dumped after an export)"""
+    d = copy.deepcopy(d)
+    d['spawn']['keys'] = [kv for kv in d['spawn']['keys'] if ''.join(map(chr, kv[0])).casefold() != 'mapversion']
+    return d
+
+
+def check_args(ctx, fail, t1, m2, d2m, d3n, opts, mode):
+    """The arguments of the public API are VALUES: VMF.parse must not change the Keyvalues tree it is
+    given (the same tree object parsed again, with either preserve_ids, gives what a fresh tree gives),
+    every accepted argument form (tree / str path / pathlib.Path; export to a str / into a file object,
+    inc_version both ways) must agree. d2m / d3n = dumps of parses of FRESH trees (preserve True / False)."""
+    import io, os, tempfile, pathlib
+    from srctools.vmf import VMF
+    from srctools.keyvalues import Keyvalues
+    ctx.count('argument checks')
+    kv = Keyvalues.parse(t1)
+    snap = G.kv_tree(kv)
+    order = [False, True, False] if mode % 2 else [True, False, True]
+    for i, preserve in enumerate(order):
+        try:
+            m = VMF.parse(kv, preserve_ids=preserve)
+        except Exception as e:
+            fail('parse-same-tree-raises', f'VMF.parse #{i + 1} (preserve_ids order {order}) of one and the same Keyvalues tree raised '
+                 f'{type(e).__name__}: {str(e)[:200]}')
+            return
+        after = G.kv_tree(kv)
+        if after != snap:
+            fail('parse-mutates-argument', f'VMF.parse(tree, preserve_ids={preserve}) changed the Keyvalues tree it was given: {_tree_diff(snap, after)}')
+            return
+        df = G.diff(_nomv(d2m if preserve else d3n), _nomv(normalise(G.dump_map(m, raw=False))))
+        if df:
+            fail('parse-same-tree-differs', f'VMF.parse #{i + 1} of one and the same Keyvalues tree (preserve_ids order {order}) differs from the parse of a fresh tree at {df}')
+            return
+    # path forms (VMF.parse opens the file itself, cp1251, universal newlines)
+    if '\r' not in t1 and ctx.hist.get('argument checks', 0) % 3 == 1:
+        try:
+            raw = t1.encode('cp1251')
+        except UnicodeEncodeError:
+            raw = None
+        if raw is not None:
+            fd, name = tempfile.mkstemp(suffix='.vmf', prefix='c06_')
+            try:
+                with os.fdopen(fd, 'wb') as f:
+                    f.write(raw)
+                ctx.count('argument checks: path forms')
+                for arg, preserve, ref in ((name, True, d2m), (pathlib.Path(name), False, d3n)):
+                    try:
+                        m = VMF.parse(arg, preserve_ids=preserve)
+                    except Exception as e:
+                        fail('parse-path-raises', f'VMF.parse({type(arg).__name__} path) raised {type(e).__name__}: {str(e)[:200]}')
+                        break
+                    df = G.diff(_nomv(ref), _nomv(normalise(G.dump_map(m, raw=False))))
+                    if df:
+                        fail('parse-path-differs', f'VMF.parse({type(arg).__name__} path, preserve_ids={preserve}) differs from the parse of the tree at {df}')
+                        break
+            finally:
+                os.unlink(name)
+    # export forms, on the re-parsed map: str result vs file object, inc_version both ways
+    try:
+        a = m2.export(inc_version=True, **opts)
+        buf = io.StringIO()
+        r = m2.export(buf, inc_version=False, **opts)
+        if r is not None or buf.getvalue() != a or buf.closed:
+            fail('export-forms-differ', 'export(file, inc_version=False) after export(inc_version=True): the text written to the file object '
+                 'differs from the returned str (or a value was returned / the file was closed)')
+        buf = io.StringIO()
+        m2.export(dest_file=buf, inc_version=True, **opts)
+        b = m2.export(inc_version=False, **opts)
+        if buf.getvalue() != b:
+            fail('export-forms-differ', 'export(inc_version=False) after export(dest_file=file, inc_version=True): the returned str differs '
+                 'from the text written to the file object')
+    except Exception as e:
+        fail('export-forms-raise', f'export to a file object / with inc_version raised {type(e).__name__}: {str(e)[:200]}')
+
+
+def check_map(ctx, vmf, minimal, multiblend, inc_version, case, report=True, args=None):
     """The property itself on one map. Returns list of (key, what)."""
     from srctools.vmf import VMF
     from srctools.keyvalues import Keyvalues
@@ -182,6 +276,10 @@ def check_map(ctx, vmf, minimal, multiblend, inc_version, case, report=True):
     except Exception as e:
         fail('export-raises', f'VMF.export raised {type(e).__name__}: {e}')
         return fails, None
+    d_after = G.dump_map(vmf, raw=True)
+    if d_after != after_export(d0, minimal, inc_version):
+        df = G.diff(after_export(d0, minimal, inc_version), d_after) or 'order of keys / lists'
+        fail('export-mutates-map', f'VMF.export changed the live map beyond map_ver / worldspawn classname+mapversion / active_cam: {df}')
     try:
         kv = Keyvalues.parse(t1)
     except Exception as e:
@@ -233,6 +331,8 @@ def check_map(ctx, vmf, minimal, multiblend, inc_version, case, report=True):
         df = G.diff(_strip_ids(d2m), _strip_ids(d3n))
         if df:
             fail('renumber-changes-content', f'preserve_ids=False changed non-id content at {df}')
+    if args is not None and not fails:
+        check_args(ctx, fail, t1, m2, d2m, d3n, opts, args)
     return fails, t1
 
 
@@ -333,12 +433,17 @@ def build_case(case):
 def run_oracle(ctx, case, build):
     """All option combinations on one map; each on a fresh copy (export mutates the map)."""
     out = []
-    for minimal, multiblend in OPTS:
+    ctx._c06_n = getattr(ctx, '_c06_n', 0) + 1
+    for oi, (minimal, multiblend) in enumerate(OPTS):
         inc = ctx.rng.random() < 0.25
         vmf = build()
-        fails, _ = check_map(ctx, vmf, minimal, multiblend, inc, case)
+        # the argument-form checks on one option set per map (mode = parse order / path forms)
+        args = ctx._c06_n % 6 if oi == ctx._c06_n % 4 else None
+        fails, _ = check_map(ctx, vmf, minimal, multiblend, inc, case, args=args)
         for key, what in fails:
             c = dict(case, minimal=minimal, disp_multiblend=multiblend, inc_version=inc)
+            if args is not None:
+                c['args'] = args
             ctx.witness(key, what + f' [{json.dumps(c)}]', c)
             out.append(key)
         ctx.count(f'opts minimal={int(minimal)} multiblend={int(multiblend)}')
@@ -438,7 +543,7 @@ def run_history(ctx, case, ops):
         if step > 0:
             H.apply_op(vmf, ops[step - 1])
         minimal, multiblend = hist_opts(step)
-        fails, _ = check_map(ctx, vmf, minimal, multiblend, step % 3 == 1, case)
+        fails, _ = check_map(ctx, vmf, minimal, multiblend, step % 3 == 1, case, args=(step % 6 if step == len(ops) else None))
         if fails:
             return step, fails
     return None
@@ -470,7 +575,7 @@ def search_histories(ctx, n, n_ops):
             except Exception:
                 return False
             return r is not None and any(k == key0 for k, _ in r[1])
-        small = common.ddmin(ops[:step], still, budget=60) if step > 1 else ops[:step]
+        small = [] if still([]) else (common.ddmin(ops[:step], still, budget=60) if step > 1 else ops[:step])
         if not still(small):
             small = ops[:step]
         for key, what in fails[:2]:
@@ -595,12 +700,22 @@ def correspond(ctx, drivers):
                 # not a correspondence matter: the search oracle reports unexportable / unparseable maps
                 ctx.count('correspond: export or keyvalues parse raised')
                 continue
+            # both parses take ONE Keyvalues object (alternating order): for the model the tree is a value, so a
+            # parse that consumes / edits its argument shows as a disagreement of the later parse (and of the snapshot)
             res = {}
-            for preserve in (True, False):
+            kv_obj = Keyvalues.parse(t1)
+            for preserve in ((True, False) if ci % 2 else (False, True)):
                 try:
-                    res[preserve] = ('ok', G.dump_map(VMF.parse(Keyvalues.parse(t1), preserve_ids=preserve)))
+                    res[preserve] = ('ok', G.dump_map(VMF.parse(kv_obj, preserve_ids=preserve)))
                 except Exception as e:
                     res[preserve] = ('err', f'{type(e).__name__}: {str(e)[:120]}')
+                snap = G.kv_tree(kv_obj)
+                if snap != tree:
+                    ctx.disagree(c, _tree_diff(tree, snap), 'unchanged (parseTree is a function of the tree value)',
+                                 f'the Keyvalues tree after VMF.parse(tree, preserve_ids={preserve}) vs before (impl vs model)')
+                    break
+            for preserve in (True, False):
+                res.setdefault(preserve, ('err', 'not run'))
             opts = {'minimal': minimal, 'multiblend': multiblend, 'inc': inc}
             reqs += [{'op': 'text', 'opts': opts, 'map': d0},
                      {'op': 'export', 'opts': opts, 'map': d0},
@@ -612,7 +727,7 @@ def correspond(ctx, drivers):
             ctx.case(c, nontrivial=bool(d0['ents'] or d0['spawn']['solids']), sample_every=41)
             ctx.count('correspond: maps')
             ctx.count('correspond: tree nodes', t1.count('\n'))
-        if time.time() - t0 > ctx.budget(40, 300):
+        if time.time() - t0 > ctx.budget(32, 300):
             ctx.notes.append('correspondence stopped by time budget')
             break
     replies = drv.batch(reqs)
@@ -706,7 +821,7 @@ def search(ctx):
         del vmf
         for k in run_oracle(ctx, case, build):
             seen[k] = seen.get(k, 0) + 1
-        if time.time() - t0 > ctx.budget(56, 600):
+        if time.time() - t0 > ctx.budget(46, 600):
             ctx.notes.append('search stopped by time budget')
             break
     for k, v in sorted(seen.items()):
@@ -728,7 +843,8 @@ def replay(ctx, payload):
             print(key, ':', what)
         return False
     vmf = build_case(inp)
-    fails, t1 = check_map(ctx, vmf, inp.get('minimal', False), inp.get('disp_multiblend', True), inp.get('inc_version', False), inp)
+    fails, t1 = check_map(ctx, vmf, inp.get('minimal', False), inp.get('disp_multiblend', True), inp.get('inc_version', False), inp,
+                          args=inp.get('args'))
     for key, what in fails:
         print(key, ':', what)
     return not fails
